@@ -51,9 +51,10 @@ def run(ctx):
     blocks, meta = [], []
     dist = {}
     silently = []
+    invalid = []
     for idx, ((j, r), n) in enumerate(zip(emitted, node)):
         if not n["valid"]:
-            continue          # C07's subject
+            invalid.append((j, r, n)); continue     # an emitted module no engine accepts neither agrees with the VM nor was it refused
         exprs = []
         m = j["module"]
         defs = "Definition M_%d : module := %s.\nDefinition B_%d : bytes := %s.\n" % (idx, nslgen.coq_module(m), idx, wasmcases.coq_bytes(r["hex"]))
@@ -131,6 +132,24 @@ def run(ctx):
     if silently:
         j, r, c = silently[0]
         ctx.violation("failing-input", {"what": "an exported function of the source is missing from the emitted module", "source": j["src"], "function": c["fn"], "hex": r["hex"]})
+    kf = ctx.known_findings()
+    rest = []
+    for x in bad_spec:
+        hit = None
+        for e in kf:
+            if e["classifier"] == "c06_uint_underflow" and x[0]["kind"] == "uint-underflow":
+                hit = e
+        if hit:
+            ctx.report_known(hit)
+        else:
+            rest.append(x)
+    bad_spec = rest
+    if invalid and not silently:
+        j, r, n = min(invalid, key=lambda x: len(x[0]["src"]))
+        ctx.violation("failing-input", {"what": "the compiler emitted a module that a conforming engine rejects: it neither agrees with the VM nor was it refused", "case_kind": j["kind"],
+                                        "source": j["src"], "hex": r["hex"], "v8": n.get("error"), "count": len(invalid)})
+    elif silently:
+        pass
     elif bad_spec:
         j, r, c, nr, vr = min(bad_spec, key=lambda x: len(x[0]["src"]))
         ctx.violation("failing-input", {"what": "the emitted WebAssembly function does not return what the source program computes", "case_kind": j["kind"], "source": j["src"], "function": c["fn"],
